@@ -37,6 +37,14 @@ def main():
            "property the change breaks as well (each was looked at: see DESIGN.md section 13).", "",
            "| id | written against | caught by its own check (quick) | also alarmed | what it is (author's words, truncated) |", "|---|---|---|---|---|"] + rows
     with open(os.path.join(V, "seeded", "README.md"), "w") as fh:
+        out.append("")
+        out.append("Not caught, and deliberately so: **C11r4m2** makes a one-way responder's transport write with an over-long payload answer `Input` instead of "
+                   "`State(OneWay)`. Two documented errors apply to that call and no precedence is documented (the unchanged tree itself answers `Input` "
+                   "before the turn error for an out-of-turn over-long handshake read); C11 demands the state error for out-of-phase calls that are "
+                   "otherwise well-formed. See DESIGN.md section 13, round 4.")
+        out.append("")
+        out.append("Inconclusive results under a seeded change (exit 2) occur where the change removes the check's own controls (C04 on C02r3m1, C05r2m2, C16r2m2: "
+                   "the genuine 65535-byte control message is no longer accepted); they are neither alarms nor misses.")
         fh.write("\n".join(out) + "\n")
     print("\n".join(out[-(n + 2):]))
 
